@@ -57,6 +57,19 @@ CHECKS.update({
          "DESIGN.md §3 C06"),
 })
 
+CHECKS.update({
+ "C08": ("exploration",
+         "exhaustive enumeration of the (protocol, compression, limit, size, position) matrix on the real Mux with messages of exactly known encoded size",
+         "For every protocol and codec, with and without compression, limits 32/100/1000/default and encoded sizes L-1, L, L+1, 2L, 64KiB (alone or after a small message): an over-limit message must never reach the handler and must produce an error; a within-limit message must be delivered. Replies around the send limit with S<L and S>L must be delivered when within S. Bogus length prefixes up to 2^64-1 must be refused without panic.",
+         "Sizes are exact because the message is one string field; only the listed boundary sizes are explored; over-limit replies are not part of the property.",
+         "DESIGN.md §3 C08"),
+ "C14": ("exploration",
+         "exhaustive enumeration of header names/values (all byte strings <= 3 bytes over a 4-byte alphabet, padded/unpadded) and of every subset of handler header/trailer items incl. reserved keys, per protocol, shape and outcome, on the real Mux",
+         "Incoming: every header reaches the handler as lower-cased metadata with all values in order and -bin values decoded. Outgoing: every subset of custom header/trailer items (SetHeader vs SendHeader, before/after the first reply) must reach the client on each protocol, -bin byte-exact; each reserved key set through metadata must leave the protocol's own value intact and the response well-formed.",
+         "The recorder models net/http's trailer rules (announced keys + TrailerPrefix), confirmed end-to-end with a grpc-go client for the trailer cases.",
+         "DESIGN.md §3 C14"),
+})
+
 NOT_YET = {}
 
 def main():
